@@ -2,9 +2,60 @@ import SJ.Proofs.GoDeleteLemmas
 set_option linter.unusedVariables false
 set_option linter.unusedSimpArgs false
 /-
-GoDelete — `Array.FirstType`, `Array.ForEach`, `Array.DeleteElems`, `Object.ForEach`, `Object.DeleteElems`
-(`parsed_array.go`, `parsed_object.go`) as printed by the translator and run by `GoSem.exec`, against the hand model
-`Model/Object.lean`.
+GoDelete — `Array.FirstType`, `Array.ForEach`, `Array.DeleteElems` (`parsed_array.go`), `Object.ForEach`,
+`Object.DeleteElems` (`parsed_object.go`) as printed by the translator (`Generated/GoSrc.lean`) and run by `GoSem.exec`,
+against the hand model `Model/Object.lean` (`View.firstType`, `View.arrForEach`, `View.arrDeleteElems`, `View.forEach`,
+`View.deleteElems`) on which C12/C14 (`DeleteDoc`, `Lookup`, `EditHistoryDelete`) rest.
+
+Setting.  `pj` with `BufOK pj` (buffer lengths are Go `int`s; needed by `stringByteAt` only, i.e. by the two `Object`
+functions), a view `v` with `v.lim ≤ pj.tape.size`, any store `e0` that holds the receiver and the two buffers (`RecvIn`),
+the parameter `onlyKeys` (`Val.keys ks`), `fn == nil` (`Val.bool`), the answers `fn.results = answers N q`
+(`q 0 … q (N-1)`, `N ≥ v.lim - v.off` — there are at most `lim - off` callbacks) and an empty or absent `fn.log`
+(`logOf e0 = []`).  Fuel: `2·v.lim + 7` for the interpreter (every iteration of a loop moves the cursor forward, every
+`Advance` costs at most `lim + 3`, a fill at most `lim + 3`), `v.lim - v.off + 1` for the model.  The interpreter is
+never stuck and never out of fuel.
+
+  1. `arrFirstType_sim`   returns `[.u8 t]` ⇔ `View.firstType pj v = .ok t`; panic ⇔ panic (`SimType`, `SimType.iff`).
+  2. `arrForEach_sim`     returns; tape unchanged; `fn.log` = `encIters its` (five integers per callback:
+                          off, addNext, cur, t, lim) where `View.arrForEach pj v.iter #[] mf = .ok its`; panic ⇔ panic.
+  3. `arrDeleteElems_exact`, `arrDeleteElems_sim`, `arrDeleteElems_sim_wf`
+                          model `.ok (pj', its)` ⇔ returns with tape `pj'.tape`, log `encIters its`, `fn.results` = the
+                          answers not consumed; panic ⇔ panic — see below for the hypothesis.
+  4. `objForEach_sim`     `[.bool false]` / `[.bool true]` / panic ⇔ model `.ok its` / `.error _` / `.panic`; log = `encNIs its`
+                          (six integers per callback: LENGTH of the name, then the iterator).
+  5. `objDeleteElems_exact`, `objDeleteElems_nil_sim` (`fn == nil`: `pred = fun _ _ => true`, nothing logged),
+     `objDeleteElems_sim` (answers `q`: `pred = fun k _ => q k`), `objDeleteElems_sim_pred` (any `pred`).
+     The log records only the length of the name, so the tie is stated for predicates of the call index; the model-side
+     lemmas `deleteElems_index_only` (a successful run IS the run of the index-only predicate
+     `fun k _ => pred k (nameAt its k)` read off its own callback list, via `deleteElems_congr_run`/`deleteElems_prefix`)
+     and `deleteElems_exists_idx` (every run, whatever its outcome, is the run of SOME index-only predicate) show that
+     this covers every `pred`.
+  6. `go_delete_source_tie` bundles them on the conventional stores (`arrStore`, `objStore`).
+
+MODEL / GO DIFFERENCE (found by these proofs; the model was not bent).
+  `View.fillNops` = `Iter.nopFill` bounds-checks the NOP writes of both `DeleteElems` against the whole ARRAY
+  (`pj.tape.size`).  Go writes `i.tape.Tape[off]` / `tmp.tape.Tape[i]` through the iterator's VIEW, of length `lim`.  An
+  element accepted by `Advance` may end beyond the view (`off + addNext > lim`: a two-word scalar in the last word of
+  the view, a container whose end pointer exceeds the view) while the array goes on; then Go panics with "index out of
+  range" at index `lim` (after writing the words before it) and the model fills up to the end and goes on.
+  * exact statements, no hypothesis: `arrDeleteElems_exact`, `objDeleteElems_exact` —
+        Go outcome = `if <every deleted element ends inside the view> then the model's outcome else panic`,
+    with the run predicates `arrDelInView` / `objDelInView` (Bool, computed along the model's run; the MINIMAL
+    hypothesis: it is necessary and sufficient);
+  * natural sufficient condition: `EndsInside v.lim pj.tape` (every live word of the view ends its element inside the
+    view: two-word scalars at `k + 2 ≤ lim`, container end pointers `≤ lim`; not proved here for parser-made tapes) on tapes
+    shorter than 2^56 words: `arrDelInView_of_endsInside`, `objDelInView_of_endsInside`, `arrDeleteElems_sim_wf`;
+  * counterexamples kept as `example`s (`pjOut`/`vOut`, `pjOutO`/`vOutO`): model `.ok`, interpreter `.panic`;
+  * suggested repair of the model: in `View.arrDeleteElems` and `View.deleteElems` replace
+    `fillNops pj.tape lo hi` by `Iter.nopFillV i.lim pj.tape lo hi` (resp. `tmp.lim`; `Model/Access.lean` has it, and
+    `fill_run`/`fillTail_run` in `GoDeleteLemmas` prove that the Go loop IS `nopFillV`); with it both `_exact` theorems
+    lose their `if`.  C12/C14 work on well-formed located documents, where `nopFillV_eq_nopFill` applies.
+  No other difference: the model's other panics (`e < 0`, `i.off = 0`) are unreachable after a live `Advance`
+  (`advance_facts`) and the Go code agrees.
+
+The proofs run the syntax trees: any edit of these Go functions changes `Generated/GoSrc.lean` and breaks them
+(`feLoopBody_eq`, `deLoopBody_eq`, `ofeLoopBody_eq`, `odeLoopBody_eq`, the `take`/`hsplit` equations are `rfl` against the
+generated trees).
 -/
 namespace SJ.GoDelete
 open SJ SJ.GoSem SJ.Generated SJ.GoIter SJ.GoObject SJ.GoSet
@@ -20,6 +71,28 @@ def SimType (pj : PJ) (o : Out) (r : Res UInt8) : Prop :=
   | .ok t => ∃ s, o = .ret s [.u8 t] ∧ s.tape = pj.tape
   | .panic => o = .panic
   | _ => False
+
+/-- the relation read as equivalences -/
+theorem SimType.iff {pj : PJ} {o : Out} {r : Res UInt8} (h : SimType pj o r) :
+    (∀ t, (∃ s, o = .ret s [.u8 t]) ↔ r = .ok t) ∧ (o = .panic ↔ r = .panic) := by
+  cases r with
+  | ok t =>
+    obtain ⟨s, rfl, _⟩ := h
+    refine ⟨fun t' => ⟨?_, ?_⟩, ⟨?_, ?_⟩⟩
+    · rintro ⟨s', h'⟩
+      simp only [Out.ret.injEq, List.cons.injEq, Val.u8.injEq, and_true] at h'
+      rw [h'.2]
+    · intro h'; simp only [Res.ok.injEq] at h'; subst h'; exact ⟨s, rfl⟩
+    · intro h'; cases h'
+    · intro h'; cases h'
+  | panic =>
+    simp only [SimType] at h
+    subst h
+    refine ⟨fun t' => ⟨?_, ?_⟩, ⟨fun _ => rfl, fun _ => rfl⟩⟩
+    · rintro ⟨s', h'⟩; cases h'
+    · intro h'; cases h'
+  | error e => exact h.elim
+  | diverge => exact h.elim
 
 theorem arrFirstType_sim (pj : PJ) (v : View) (hl : v.lim ≤ pj.tape.size) (e0 : Env) (h0 : RecvIn pj "a" v e0)
     (fuel : Nat) (hf : v.lim + 2 ≤ fuel) :
@@ -1615,4 +1688,169 @@ theorem deleteElems_exists_idx (pred : Nat → Bytes → Bool) (ks : List Bytes)
         simp only [hd]
         rfl
 
+/-! ## `Object.DeleteElems`: the two ways to call it -/
+
+/-- `o.DeleteElems(nil, onlyKeys)`: every selected member is deleted (`pred = fun _ _ => true`), nothing is logged -/
+theorem objDeleteElems_nil_sim (pj : PJ) (hb : BufOK pj) (v : View) (hl : v.lim ≤ pj.tape.size) (ks : List Bytes)
+    (e0 : Env) (h0 : RecvIn pj "o" v e0) (hk : e0.get "onlyKeys" = some (.keys ks))
+    (hnil : e0.get "fn==nil" = some (.bool true)) (fuel mf : Nat) (hmf : v.lim - v.off + 1 ≤ mf)
+    (hf : 2 * v.lim + 7 ≤ fuel) (hin : objDelInView pj (fun _ _ => true) ks v.iter 0 mf = true) :
+    match View.deleteElems pj (fun _ _ => true) ks v.iter 0 #[] mf with
+    | .ok (pj', its) => ∃ s, runFun goFuns goObject_DeleteElems fuel ⟨e0, pj.tape⟩ = .ret s [.bool false] ∧
+        s.tape = pj'.tape ∧ logOf s.env = logOf e0
+    | .error _ => ∃ s, runFun goFuns goObject_DeleteElems fuel ⟨e0, pj.tape⟩ = .ret s [.bool true]
+    | .panic => runFun goFuns goObject_DeleteElems fuel ⟨e0, pj.tape⟩ = .panic
+    | .diverge => False := by
+  have := objDeleteElems_exact pj hb v hl ks e0 h0 hk true hnil (fun _ => true) 0 (logOf e0)
+    (by simp [CbInv]) (by simp) fuel mf hmf hf
+  simp only [Bool.true_or] at this
+  rw [if_pos hin] at this
+  revert this
+  cases View.deleteElems pj (fun _ _ => true) ks v.iter 0 #[] mf with
+  | ok r =>
+    obtain ⟨pj', its⟩ := r
+    rintro ⟨s, h1, h2, h3⟩
+    exact ⟨s, h1, h2, by simpa [CbInv] using h3⟩
+  | error _ => exact fun h => h
+  | panic => exact fun h => h
+  | diverge => exact fun h => h
+
+/-- `o.DeleteElems(fn, onlyKeys)` with the answers `q`: `pred = fun k _ => q k` -/
+theorem objDeleteElems_sim (pj : PJ) (hb : BufOK pj) (v : View) (hl : v.lim ≤ pj.tape.size) (ks : List Bytes)
+    (e0 : Env) (h0 : RecvIn pj "o" v e0) (hk : e0.get "onlyKeys" = some (.keys ks))
+    (hnil : e0.get "fn==nil" = some (.bool false)) (hlog : logOf e0 = []) (q : Nat → Bool) (N : Nat)
+    (hres : e0.get "fn.results" = some (.bools (answers N q))) (hN : v.lim - v.off ≤ N) (fuel mf : Nat)
+    (hmf : v.lim - v.off + 1 ≤ mf) (hf : 2 * v.lim + 7 ≤ fuel)
+    (hin : objDelInView pj (fun k _ => q k) ks v.iter 0 mf = true) :
+    match View.deleteElems pj (fun k _ => q k) ks v.iter 0 #[] mf with
+    | .ok (pj', its) => ∃ s, runFun goFuns goObject_DeleteElems fuel ⟨e0, pj.tape⟩ = .ret s [.bool false] ∧
+        s.tape = pj'.tape ∧ logOf s.env = encNIs its ∧
+        s.env.get "fn.results" = some (.bools ((answers N q).drop its.size))
+    | .error _ => ∃ s, runFun goFuns goObject_DeleteElems fuel ⟨e0, pj.tape⟩ = .ret s [.bool true]
+    | .panic => runFun goFuns goObject_DeleteElems fuel ⟨e0, pj.tape⟩ = .panic
+    | .diverge => False := by
+  have := objDeleteElems_exact pj hb v hl ks e0 h0 hk false hnil q N []
+    (by simp [CbInv, hlog, hres, encNIs]) (fun _ => hN) fuel mf hmf hf
+  simp only [Bool.false_or] at this
+  rw [if_pos hin] at this
+  revert this
+  cases View.deleteElems pj (fun k _ => q k) ks v.iter 0 #[] mf with
+  | ok r =>
+    obtain ⟨pj', its⟩ := r
+    rintro ⟨s, h1, h2, h3⟩
+    simp only [CbInv, Bool.false_eq_true, if_false] at h3
+    exact ⟨s, h1, h2, h3.1, h3.2⟩
+  | error _ => exact fun h => h
+  | panic => exact fun h => h
+  | diverge => exact fun h => h
+
+/-- … for an arbitrary predicate `pred` (which may look at the name): if the model's run returns `(pj', its)`, the Go code
+    run with the answers `pred k (name of the k-th callback)` ends with the tape `pj'.tape` and has made the callbacks
+    `its` -/
+theorem objDeleteElems_sim_pred (pj : PJ) (hb : BufOK pj) (v : View) (hl : v.lim ≤ pj.tape.size) (ks : List Bytes)
+    (pred : Nat → Bytes → Bool) (mf : Nat) (pj' : PJ) (its : Array (Bytes × Iter))
+    (hm : View.deleteElems pj pred ks v.iter 0 #[] mf = .ok (pj', its))
+    (e0 : Env) (h0 : RecvIn pj "o" v e0) (hk : e0.get "onlyKeys" = some (.keys ks))
+    (hnil : e0.get "fn==nil" = some (.bool false)) (hlog : logOf e0 = []) (N : Nat)
+    (hres : e0.get "fn.results" = some (.bools (answers N fun k => pred k (nameAt its k)))) (hN : v.lim - v.off ≤ N)
+    (fuel : Nat) (hmf : v.lim - v.off + 1 ≤ mf) (hf : 2 * v.lim + 7 ≤ fuel)
+    (hin : objDelInView pj (fun k _ => pred k (nameAt its k)) ks v.iter 0 mf = true) :
+    ∃ s, runFun goFuns goObject_DeleteElems fuel ⟨e0, pj.tape⟩ = .ret s [.bool false] ∧
+      s.tape = pj'.tape ∧ logOf s.env = encNIs its ∧
+      s.env.get "fn.results" = some (.bools ((answers N fun k => pred k (nameAt its k)).drop its.size)) := by
+  have := objDeleteElems_sim pj hb v hl ks e0 h0 hk hnil hlog (fun k => pred k (nameAt its k)) N hres hN fuel mf hmf hf
+    hin
+  rw [deleteElems_index_only pj pred ks v.iter mf pj' its hm] at this
+  exact this
+
+/-! ### the difference, concretely (object)
+
+`{"a": [ … ]}` seen through a view of four words whose member value's end pointer (6) lies beyond the view but inside the
+array.  `DeleteElems(nil, nil)`: the model fills words 0‥5, Go panics at index 4. -/
+
+def pjOutO : PJ :=
+  { tape := #[mkWord tagString 0, 1, mkWord tagArrayStart 6, mkWord tagArrayEnd 0, 0, 0], strings := #[], msg := #[97] }
+def vOutO : View := { lim := 4, off := 0 }
+def envOutO : Env :=
+  [("o.off", .int 0), ("o.lim", .int 4)] ++ bufEnv pjOutO ++ [("onlyKeys", .keys []), ("fn==nil", .bool true)]
+
+example : (View.deleteElems pjOutO (fun _ _ => true) [] vOutO.iter 0 #[] 5).isOk = true ∧
+    objDelInView pjOutO (fun _ _ => true) [] vOutO.iter 0 5 = false ∧
+    ∀ fuel, 15 ≤ fuel → runFun goFuns goObject_DeleteElems fuel ⟨envOutO, pjOutO.tape⟩ = .panic := by
+  refine ⟨by decide +kernel, by decide +kernel, fun fuel hf => ?_⟩
+  have := objDeleteElems_exact pjOutO ⟨by decide, by decide⟩ vOutO (by decide) [] envOutO ⟨rfl, rfl, rfl, rfl⟩ rfl true rfl
+    (fun _ => true) 0 [] (by simp [CbInv, logOf, envOutO, bufEnv, Env.get]) (by simp) fuel 5 (by decide)
+    (by simpa [vOutO] using hf)
+  simp only [Bool.true_or] at this
+  rw [if_neg (by decide +kernel)] at this
+  exact this
+
+/-! ## 6. The bundle, on the conventional stores -/
+
+/-- receiver fields ++ shared buffers ++ callback variables -/
+def arrStore (pj : PJ) (v : View) (extra : Env) : Env :=
+  [("a.off", .int v.off), ("a.lim", .int v.lim)] ++ bufEnv pj ++ extra
+
+/-- receiver fields ++ shared buffers ++ parameter ++ callback variables -/
+def objStore (pj : PJ) (v : View) (ks : List Bytes) (extra : Env) : Env :=
+  [("o.off", .int v.off), ("o.lim", .int v.lim)] ++ bufEnv pj ++ [("onlyKeys", .keys ks)] ++ extra
+
+theorem RecvIn_arrStore (pj : PJ) (v : View) (extra : Env) : RecvIn pj "a" v (arrStore pj v extra) := by
+  refine ⟨?_, ?_, ?_, ?_⟩ <;> simp [arrStore, bufEnv, Env.get]
+
+theorem RecvIn_objStore (pj : PJ) (v : View) (ks : List Bytes) (extra : Env) :
+    RecvIn pj "o" v (objStore pj v ks extra) := by
+  refine ⟨?_, ?_, ?_, ?_⟩ <;> simp [objStore, bufEnv, Env.get]
+
+/-- `Array.FirstType`, `Array.ForEach`, `Array.DeleteElems`, `Object.ForEach`, `Object.DeleteElems` as printed from
+    `/repo` ARE `View.firstType`, `View.arrForEach`, `View.arrDeleteElems`, `View.forEach`, `View.deleteElems`:
+    for every document whose buffer lengths are Go `int`s, every view inside the tape, every key set, every sequence of
+    callback answers `q`, `2·lim + 7` units of interpreter fuel and `lim - off + 1` units of model fuel.  The two
+    `DeleteElems` carry the hypothesis that every element of the view ends inside the view (`EndsInside`, on tapes
+    shorter than 2^56 words) — see `arrDeleteElems_exact` / `objDeleteElems_exact` for the exact statement without it
+    and the `example`s for the run where model and Go differ. -/
+theorem go_delete_source_tie (pj : PJ) (hb : BufOK pj) (v : View) (hl : v.lim ≤ pj.tape.size) (ks : List Bytes)
+    (q : Nat → Bool) (N : Nat) (hN : v.lim - v.off ≤ N) (fuel mf : Nat) (hmf : v.lim - v.off + 1 ≤ mf)
+    (hf : 2 * v.lim + 7 ≤ fuel) :
+    SimType pj (runFun goFuns goArray_FirstType fuel ⟨arrStore pj v [], pj.tape⟩) (View.firstType pj v) ∧
+    SimFE pj (runFun goFuns goArray_ForEach fuel ⟨arrStore pj v [("fn.log", .ints [])], pj.tape⟩)
+      (View.arrForEach pj v.iter #[] mf) ∧
+    SimOFE pj (runFun goFuns goObject_ForEach fuel ⟨objStore pj v ks [("fn.log", .ints [])], pj.tape⟩)
+      (View.forEach pj ks v.iter 0 #[] mf) ∧
+    (EndsInside v.lim pj.tape → v.lim < 2^56 →
+      SimDel N q (runFun goFuns goArray_DeleteElems fuel
+          ⟨arrStore pj v [("fn.results", .bools (answers N q)), ("fn.log", .ints [])], pj.tape⟩)
+        (View.arrDeleteElems pj q v.iter 0 #[] mf) ∧
+      SimODel true 0 q [] (runFun goFuns goObject_DeleteElems fuel
+          ⟨objStore pj v ks [("fn==nil", .bool true)], pj.tape⟩)
+        (View.deleteElems pj (fun _ _ => true) ks v.iter 0 #[] mf) ∧
+      SimODel false N q [] (runFun goFuns goObject_DeleteElems fuel
+          ⟨objStore pj v ks [("fn==nil", .bool false), ("fn.results", .bools (answers N q)), ("fn.log", .ints [])],
+            pj.tape⟩)
+        (View.deleteElems pj (fun k _ => q k) ks v.iter 0 #[] mf)) := by
+  refine ⟨?_, ?_, ?_, fun hw h56 => ⟨?_, ?_, ?_⟩⟩
+  · exact arrFirstType_sim pj v hl _ (RecvIn_arrStore pj v _) fuel (by omega)
+  · exact arrForEach_sim pj v hl _ (RecvIn_arrStore pj v _) (by simp [logOf, arrStore, bufEnv, Env.get]) fuel mf hmf
+      (by omega)
+  · exact objForEach_sim pj hb v hl ks _ (RecvIn_objStore pj v ks _) (by simp [objStore, bufEnv, Env.get])
+      (by simp [logOf, objStore, bufEnv, Env.get]) fuel mf hmf hf
+  · exact arrDeleteElems_sim_wf pj v hl _ (RecvIn_arrStore pj v _) (by simp [logOf, arrStore, bufEnv, Env.get]) q N
+      (by simp [arrStore, bufEnv, Env.get]) hN fuel mf hmf hf hw h56
+  · have := objDeleteElems_exact pj hb v hl ks (objStore pj v ks [("fn==nil", .bool true)])
+      (RecvIn_objStore pj v ks _) (by simp [objStore, bufEnv, Env.get]) true
+      (by simp [objStore, bufEnv, Env.get]) q 0 [] (by simp [CbInv, logOf, objStore, bufEnv, Env.get]) (by simp)
+      fuel mf hmf hf
+    simp only [Bool.true_or] at this
+    rw [if_pos (objDelInView_of_endsInside _ ks mf pj v.iter 0 hw h56 (by simp [View.iter]))] at this
+    exact this
+  · have := objDeleteElems_exact pj hb v hl ks
+      (objStore pj v ks [("fn==nil", .bool false), ("fn.results", .bools (answers N q)), ("fn.log", .ints [])])
+      (RecvIn_objStore pj v ks _) (by simp [objStore, bufEnv, Env.get]) false
+      (by simp [objStore, bufEnv, Env.get]) q N []
+      (by simp [CbInv, logOf, objStore, bufEnv, Env.get, encNIs]) (fun _ => hN) fuel mf hmf hf
+    simp only [Bool.false_or] at this
+    rw [if_pos (objDelInView_of_endsInside _ ks mf pj v.iter 0 hw h56 (by simp [View.iter]))] at this
+    exact this
+
 end SJ.GoDelete
+
